@@ -300,4 +300,87 @@ example : PathOK (.mk .map [] [.mk .list ['a', '/', 'b'] [.mk .scalar [] [], .mk
       .mk .scalar ['.', '.'] []]) [0, 1] = true := by
   simp [PathOK, stepOK, findName, Node.name, hasBackslashDot, endsWithBackslash, intMaxDigits, natStr]
 
+/-! ### from spec B's `addressable` and the library's tree invariants -/
+
+/-- what the library guarantees of every element tree: scalars have no children, a Dict's keys
+    address their own child (unique names), sequence indexes fit `int()`'s digit limit -/
+def TreeInv (root : Node) : Prop :=
+  ∀ (p : Pos) (k : Kind) (nm : Str) (kids : List Node), root.get? p = some (.mk k nm kids) →
+    (k = .scalar → kids = []) ∧
+    (k = .map → ∀ i c, kids[i]? = some c → findName c.name kids = some i) ∧
+    ((k = .list ∨ k = .array) → ∀ i, i < kids.length →
+      ((natStr i).length ≤ intMaxDigits ∨ intMaxDigits = 0))
+
+theorem pathOK_of_addressableFrom (root : Node) (hinv : TreeInv root) : ∀ (pos : Pos) (n : Node) (el : Pos),
+    root.get? el = some n → addressableFrom n pos = true → PathOK n pos = true
+  | [], _, _, _, _ => rfl
+  | i :: p, .mk k nm kids, el, hg, ha => by
+    simp only [addressableFrom] at ha
+    simp only [PathOK]
+    cases hk : kids[i]? with
+    | none => rw [hk] at ha; simp at ha
+    | some c =>
+      rw [hk] at ha
+      simp only [Bool.and_eq_true] at ha ⊢
+      obtain ⟨hname, hrest⟩ := ha
+      obtain ⟨h1, h2, h3⟩ := hinv el k nm kids hg
+      have hi : i < kids.length := by
+        rcases Nat.lt_or_ge i kids.length with h | h
+        · exact h
+        · rw [List.getElem?_eq_none h] at hk; cases hk
+      have hg' : root.get? (el ++ [i]) = some c := by
+        rw [get?_append_single el root _ i hg]
+        simp [Node.kids, hk]
+      refine ⟨?_, pathOK_of_addressableFrom root hinv p c (el ++ [i]) hg' hrest⟩
+      cases k with
+      | scalar => have := h1 rfl; subst this; simp at hk
+      | list => simp only [stepOK, decide_eq_true_eq]; exact h3 (Or.inl rfl) i hi
+      | array => simp only [stepOK, decide_eq_true_eq]; exact h3 (Or.inr rfl) i hi
+      | map =>
+        simp only [bne_self_eq_false, Bool.false_or, Bool.and_eq_true] at hname
+        simp only [stepOK, Bool.and_eq_true, beq_iff_eq]
+        exact ⟨⟨⟨h2 rfl i c hk, hname.1.1⟩, hname.1.2⟩, hname.2⟩
+
+/-- **spec B's restriction suffices**: on a tree with the library's invariants every
+    `addressable` element is found, alone, by its `fq_name()` from every start -/
+theorem find_fq_addressable (root : Node) (hinv : TreeInv root) (start pos : Pos) (strict : Bool)
+    (ha : addressable root pos = true) :
+    find root start (fqName root pos) false strict = .many [pos] :=
+  find_fq root start pos strict (pathOK_of_addressableFrom root hinv pos root [] rfl ha)
+
+/-! ### the unrestricted law and why it fails -/
+
+/-- the property as stated: every tree the library can build, every element, every start -/
+def C13_Full : Prop := ∀ root : Node, TreeInv root → Inverse root
+
+/-- Dict{"": String} -/
+def witnessEmpty : Node := .mk .map ['r'] [.mk .scalar [] []]
+
+theorem witnessEmpty_inv : TreeInv witnessEmpty := by
+  intro p k nm kids h
+  match p, h with
+  | [], h =>
+    simp only [witnessEmpty, Node.get?, Option.some.injEq, Node.mk.injEq] at h
+    obtain ⟨rfl, rfl, rfl⟩ := h
+    refine ⟨by simp, ?_, by simp⟩
+    intro _ i c hc
+    match i, hc with
+    | 0, hc => simp at hc; subst hc; simp [findName, Node.name]
+    | i + 1, hc => simp at hc
+  | [0], h =>
+    simp only [witnessEmpty, Node.get?, List.getElem?_cons_zero, Option.some.injEq, Node.mk.injEq] at h
+    obtain ⟨rfl, rfl, rfl⟩ := h
+    exact ⟨by simp, by simp, by simp⟩
+  | 0 :: j :: q, h => simp [witnessEmpty, Node.get?] at h
+  | (i + 1) :: q, h => simp [witnessEmpty, Node.get?] at h
+
+/-- KF-C13-b: the field named `""` has `fq_name()` `/`, which finds the root -/
+theorem C13_full_fails : ¬ C13_Full := by
+  intro h
+  have hinv := (h witnessEmpty witnessEmpty_inv).2 [] [0] rfl rfl
+  unfold isInverseAt at hinv
+  have hfq : fqName witnessEmpty [0] = fqName witnessEmpty [] := by decide
+  rw [hfq, find_fq witnessEmpty [] [] true rfl] at hinv
+  simp at hinv
+
 end Flatland.C13.Proofs
